@@ -214,6 +214,10 @@ func namedOf(t types.Type) *types.Named {
 }
 
 func (db *SpecDB) ifaceSpec(t types.Type, method string, callerPkg string) (*FnSpec, *ContractFile) {
+	if tp, ok := types.Unalias(t).(*types.TypeParam); ok {
+		// a method call on a value of type-parameter type: the contract is the one of the constraint interface
+		t = tp.Constraint()
+	}
 	n := namedOf(t)
 	if n == nil || n.Obj().Pkg() == nil {
 		return nil, nil
